@@ -18,7 +18,7 @@ RULE = ("for (suite, sk, message) from Hypothesis and an entry point (Verify of 
         "without the key prefix; -S; 2S; S+T for cofactor torsion T (full component, order 13, order 23); the "
         "identity; 1-4 bit flips over all 768 positions (all six flag bits and the ends of both words pinned); "
         "re-encodings (x_im+p, x_re+p, flag bits in the second word, infinity bit on a finite point); kG2 for "
-        "random k; random bytes. Oracle: Verify(pk, m, c) is True iff c equals the model's canonical signature "
+        "random k; random bytes; and suites derived from the three stock classes with their own DST / POP_TAG (own-tag signature accepted by the derived suite only, stock-tag signature by the stock suite only). Oracle: Verify(pk, m, c) is True iff c equals the model's canonical signature "
         "byte for byte (uniqueness of BLS signatures + canonical encoding). Non-trivial = a candidate that is a "
         "valid subgroup encoding different from the canonical one (decided by the pairing equation) or a "
         "flag-bit flip / re-encoding; distinct by (suite, entry, sk, sha256(m), candidate)")
@@ -31,7 +31,7 @@ ARMS = ("canonical", "other_key", "other_msg", "other_suite", "pop_confusion", "
 _REQ = [f"arm:{a}" for a in ARMS] + ["verdict:True", "verdict:False", "reached_pairing:False-verdict",
                                       "pop_confusion:sequence", "entry:PopVerify", "entry:Verify:basic", "entry:Verify:aug", "entry:Verify:pop",
                                       "bitflip:flag_bit", "canonical:coordinate_leading_byte=0x1a",
-                                      "canonical:coordinate_leading_byte=0x00"]
+                                      "canonical:coordinate_leading_byte=0x00", "derived:basic", "derived:aug", "derived:pop"]
 REQUIRED_LABELS = {"quick": _REQ, "thorough": _REQ}
 
 
@@ -143,7 +143,61 @@ def o_verify(ctx, case):
     ctx.sample({k: v for k, v in case.items()}, f"{arm}:{entry}")
 
 
-ORACLES = {"verify": o_verify}
+_derived = {}
+
+
+def derived_suite(suite, tag, pop_tag):
+    """An application-specific ciphersuite: the stock class with its domain tags overridden, which is how this
+    API is given another tag.  None if the library refuses to be subclassed."""
+    key = (suite, tag, pop_tag)
+    if key not in _derived:
+        base = sc.lib_suite(suite)
+        attrs = {"DST": tag}
+        if suite == "pop":
+            attrs["POP_TAG"] = pop_tag
+        try:
+            _derived[key] = type("App" + base.__name__, (base,), attrs)
+        except TypeError:
+            _derived[key] = None
+    return _derived[key]
+
+
+def o_derived(ctx, case):
+    """Every entry point of a derived suite must use the derived suite's own tags - and nothing else: the
+    canonical signature under tag T verifies in the T-suite only, the stock-tag signature in the stock suite only."""
+    suite, sk, msg = case["suite"], case["sk"], unhx(case["msg"])
+    tag, ptag = unhx(case["tag"]), unhx(case["pop_tag"])
+    ctx.begin("derived", case)
+    S = sc.lib_suite(suite)
+    A = derived_suite(suite, tag, ptag)
+    if A is None:
+        ctx.label("derived:subclassing_refused")
+        return
+    pk = blssig.sk_to_pk(sk)
+    hashed = pk + msg if suite == "aug" else msg
+    own = B.signature_bytes(blssig.core_sign_point(sk, hashed, tag))
+    stock = B.signature_bytes(blssig.core_sign_point(sk, hashed, blssig.DST[suite]))
+    calls = [("App.Sign(sk, m) is the canonical signature under the application tag", lambda: A.Sign(sk, msg) == own, True),
+             ("App.Verify(pk, m, signature under the application tag)", lambda: A.Verify(pk, msg, own), True),
+             ("App.Verify(pk, m, signature under the stock tag)", lambda: A.Verify(pk, msg, stock), False),
+             ("stock Verify(pk, m, signature under the application tag)", lambda: S.Verify(pk, msg, own), False),
+             ("stock Verify(pk, m, stock signature) after the derived suite was used", lambda: S.Verify(pk, msg, stock), True)]
+    if suite == "pop":
+        proof_own = B.signature_bytes(blssig.core_sign_point(sk, pk, ptag))
+        calls += [("App.PopProve(sk) is the proof under the application proof tag", lambda: A.PopProve(sk) == proof_own, True),
+                  ("App.PopVerify(pk, proof under the application proof tag)", lambda: A.PopVerify(pk, proof_own), True),
+                  ("App.PopVerify(pk, stock proof)", lambda: A.PopVerify(pk, blssig.pop_prove(sk)), False),
+                  ("stock PopVerify(pk, application proof)", lambda: S.PopVerify(pk, proof_own), False)]
+    for name, fn, exp in calls:
+        out = fn()
+        ctx.check(out is exp, "derived", "wrong_tag_used", case,
+                  f"{S.__name__} derived with DST={tag!r}: {name} = {out!r}, expected {exp}")
+    ctx.label(f"derived:{suite}")
+    ctx.nontrivial(("d", suite, sk, case["msg"], case["tag"], case["pop_tag"]))
+    ctx.sample(case, f"derived:{suite}")
+
+
+ORACLES = {"verify": o_verify, "derived": o_derived}
 
 FLAG_BITS = (767, 766, 765, 383, 382, 381)
 PINNED_BITS = FLAG_BITS + (0, 7, 380, 384, 391, 760, 764)
@@ -317,6 +371,16 @@ def t_verify(ctx, shard, nshards, n):
     drive(ctx, f"verify{shard}", s_case(), lambda c: o_verify(ctx, c), n, ex[shard::nshards], shrink=False)
 
 
+def t_derived(ctx, shard, n):
+    tags = st.sampled_from([b"APP-V01-CS01-with-BLS12381G2_XMD:SHA-256_SSWU_RO_", b"", b"x",
+                            b"BLS_SIG_BLS12381G2_XMD:SHA-256_SSWU_RO_NUL_X", b"t" * 255])
+    strat = st.fixed_dictionaries({"suite": sc.s_suite(), "sk": sc.s_sk(), "msg": s_msg(80, huge_rate=0).map(hx),
+                                   "tag": tags.map(hx), "pop_tag": st.sampled_from([b"APP-POP-TAG", b"", b"p" * 255]).map(hx)})
+    ex = [{"suite": su, "sk": 41 + i, "msg": hx(b"derived suite"), "tag": hx(b"ACME-V01-CS01-with-BLS12381G2_XMD:SHA-256_SSWU_RO_"),
+           "pop_tag": hx(b"ACME-POP")} for i, su in enumerate(sc.SUITES) if i % 3 == shard % 3]
+    drive(ctx, f"derived{shard}", strat, lambda c: o_derived(ctx, c), n, ex, shrink=False)
+
+
 def t_allflips(ctx, suite, lo, hi):
     """thorough: every single-bit flip of one signature."""
     sk, msg = 0x1234567 + lo, b"all single-bit flips"
@@ -329,6 +393,7 @@ def tasks(tier):
     q = tier == "quick"
     ns = 16
     out = [Task(f"verify-{s}", "t_verify", shard=s, nshards=ns, n=36 if q else 1200) for s in range(ns)]
+    out += [Task(f"derived-{s}", "t_derived", shard=s, n=2 if q else 60) for s in range(3)]
     if not q:
         for i, suite in enumerate(sc.SUITES):
             for lo in range(0, 768, 96):
